@@ -32,9 +32,35 @@ def py_validator(vid):
 
 
 # ------------------------------------------------------------ values
+class Awaitable:
+    """A plain value that happens to be awaitable (a ticket for a side job, say): a step may return it like any other value."""
+
+    def __init__(self, kind):
+        self.kind = kind
+
+    def __await__(self):
+        if self.kind == 'pending':
+            import asyncio
+            fut = asyncio.get_running_loop().create_future()
+            return (yield from fut.__await__())
+        return 'payload-of-the-awaitable'
+        yield  # noqa: unreachable — makes this a generator function
+
+    def __eq__(self, other):
+        return isinstance(other, Awaitable) and other.kind == self.kind
+
+    def __hash__(self):
+        return hash(('Awaitable', self.kind))
+
+    def __deepcopy__(self, memo):
+        return Awaitable(self.kind)
+
+
 def decode(v):
     """JSON -> Python value ({'__tuple__': [...]} -> tuple)."""
     if isinstance(v, dict):
+        if set(v.keys()) == {'__awaitable__'}:
+            return Awaitable(v['__awaitable__'])
         if set(v.keys()) == {'__tuple__'}:
             return tuple(decode(x) for x in v['__tuple__'])
         return {k: decode(x) for k, x in v.items()}
@@ -46,6 +72,8 @@ def decode(v):
 def encode(v):
     """Python value -> JSON with frozen dicts / tuples marked."""
     from plumpy.utils import Frozendict
+    if isinstance(v, Awaitable):
+        return {'__awaitable__': v.kind}
     if isinstance(v, Frozendict):
         return {'__frozen__': {k: encode(x) for k, x in v.items()}}
     if isinstance(v, dict):
@@ -104,10 +132,40 @@ def py_vt(vt):
     return ts[0] if len(ts) == 1 else ts
 
 
+class _Const:
+    """a callable that is not a function: an instance with __call__"""
+
+    def __init__(self, v):
+        self.v = v
+
+    def __call__(self):
+        return self.v
+
+
+def _identity(v):
+    return v
+
+
+_CALL_STYLE = [0]
+
+
 def py_dflt(d):
+    """'call' defaults are realised by every kind of callable in turn: a lambda, a functools.partial, an instance with __call__,
+    and — when the value is an empty list / dict — the class itself used as a factory"""
     if d[0] == 'val':
         return decode(d[1])
+    import functools
     v = decode(d[1])
+    _CALL_STYLE[0] += 1
+    k = _CALL_STYLE[0] % 4
+    if k == 3 and v == [] and isinstance(v, list):
+        return list
+    if k == 3 and v == {} and isinstance(v, dict):
+        return dict
+    if k == 1:
+        return functools.partial(_identity, v)
+    if k == 2:
+        return _Const(v)
     return lambda: v
 
 
